@@ -25,6 +25,7 @@ class Unit:
         self.items = []                     # dicts: name, kind, file, line, contract
         self.assumed = []                   # contract ids used as external_body stubs
         self.trusted = []                   # free-text trusted assumptions (assume_specification ...)
+        self.auto_stubs = []
         self.lost_hints = {}               # emitted fn name -> [anchors] of proof hints that could not be placed
         self.axioms = []                    # lemma names used as axioms here (proved in the unit that owns them)
         self.rlimit = 60
@@ -82,6 +83,45 @@ class Unit:
         else:
             self.trusted.append('external_body %s (%s:%d) with local contract' % (name, rel, line))
         return self
+
+    def stub_all(self, rel, impl, prefix, only=None):
+        """stub every function of the contract table with key `prefix::name` that exists in the impl block and is not yet in
+        this unit, so that an edited body calling another known function still type-checks.  A stub that no proved body
+        calls is not an assumption of the unit (see used_assumed)."""
+        have = set(re.findall(r'\bfn (\w+)', '\n'.join(self.chunks)))
+        for cid in sorted(self.contracts):
+            if not cid.startswith(prefix + '::'):
+                continue
+            name = cid.split('::', 1)[1]
+            if '__' in name or name in have or (only and name not in only):
+                continue
+            try:
+                s = src(rel)
+                sig, body, line = s.fn(name, impl)
+            except AnchorLost:
+                continue
+            c = self.contracts[cid]
+            txt = emit_fn(sig, body, requires=c.get('requires', ''), ensures=c.get('ensures', ''), stub=True)
+            allt = '\n'.join(self.chunks)
+            types = set(re.findall(r'\b([A-Z][A-Za-z0-9]+)\b', txt)) - {'Self', 'Option', 'Some', 'None', 'Result', 'Ok', 'Err', 'MIN', 'MAX', 'DN', 'UNIX', 'DAYNS', 'LIM', 'NonZeroI32', 'Ordering'}
+            types = set(t for t in types if not t.isupper())
+            if any(not re.search(r'\b(struct|enum|type|trait) ' + t + r'\b', allt) for t in types):
+                continue
+            specs = set(m for m in re.findall(r'(?<![.\w])([a-z_][a-z0-9_]*)\(', c.get('requires', '') + ' ' + c.get('ensures', ''))) - {'forall', 'exists', 'old', 'final'}
+            if any(not re.search(r'\bspec fn ' + f + r'\b', allt) for f in specs):
+                continue
+            self.chunks.append(txt)
+            self.auto_stubs.append((cid, name))
+        return self
+
+    def used_assumed(self):
+        """contracts this unit really assumes: explicit stubs + auto stubs whose function is called by a proved body"""
+        out = list(self.assumed)
+        bodies = '\n'.join(c for c in self.chunks if '#[verifier::external_body]' not in c[:200])
+        for cid, name in self.auto_stubs:
+            if re.search(r'[.:]' + re.escape(name) + r'\(', bodies):
+                out.append(cid)
+        return out
 
     def const(self, rel, name, impl=None, replace=None):
         t = clean_const(src(rel).const(name, impl))
